@@ -262,14 +262,49 @@ def _make_nsm(kind):
     return nsm
 
 
+class SubURIRef(URIRef):
+    """a user-defined subclass, as applications make them (pickled by reference: module c07)"""
+    __slots__ = ()
+
+
+class SubBNode(BNode):
+    __slots__ = ()
+
+
+class SubLiteral(Literal):
+    __slots__ = ()
+
+
+class SubVariable(Variable):
+    __slots__ = ()
+
+
+def _twins(t):
+    """the same term as an instance of a user-defined subclass of its class"""
+    if type(t) is URIRef:
+        return [SubURIRef(str(t))]
+    if type(t) is BNode:
+        return [SubBNode(str(t))]
+    if type(t) is Variable:
+        return [SubVariable(str(t))]
+    if type(t) is Literal:
+        r = _try(lambda: SubLiteral(str(t), lang=t.language, datatype=t.datatype, normalize=False))
+        return [] if isinstance(r, Exception) or str(r) != str(t) else [r]
+    return []
+
+
 def _picklers():
-    """the ways a store's NodePickler is used: fresh, with the registrations Store.node_pickler makes,
-    and such a pickler after it was itself pickled / deep-copied (persisted with the object that holds it)"""
+    """the ways a store's NodePickler is used: fresh; with exactly the registrations Store.node_pickler makes (the BASE
+    classes only, so subclass instances go through a pickler that knows their base class but not their class);
+    the node_pickler of a real store; and a registered pickler after it was itself pickled / deep-copied"""
+    from rdflib.graph import QuotedGraph
+    from rdflib.plugins.stores.memory import Memory
     fresh = NodePickler()
     reg = NodePickler()
-    for obj, key in ((URIRef, "U"), (BNode, "B"), (Literal, "L"), (Variable, "V"), (Genid, "Gi"), (RDFLibGenid, "Ri")):
+    for obj, key in ((URIRef, "U"), (BNode, "B"), (Literal, "L"), (Graph, "G"), (QuotedGraph, "Q"), (Variable, "V")):
         reg.register(obj, key)
-    out = [("fresh", fresh, fresh), ("registered", reg, reg)]
+    store_np = _try(lambda: Memory().node_pickler)
+    out = [("fresh", fresh, fresh), ("registered", reg, reg), ("store", store_np, store_np)]
     for name, f in (("pickled", lambda: pickle.loads(pickle.dumps(reg))), ("deepcopied", lambda: copy.deepcopy(reg))):
         r = _try(f)
         out.append((name, reg, r))
@@ -542,28 +577,33 @@ def run_impl(case):
     # ---------------- per term: pickling, copying, n3 text
     picklers = _picklers()
     nsm = _try(lambda: _make_nsm(case.get("nsm", "custom")))
-    for i, t in live:
-        for name, f in (("pickle2", lambda: pickle.loads(pickle.dumps(t, 2))),
-                        ("pickle", lambda: pickle.loads(pickle.dumps(t, pickle.HIGHEST_PROTOCOL))),
-                        ("copy", lambda: copy.copy(t)), ("deepcopy", lambda: copy.deepcopy(t))):
-            p = _try(f)
-            tag = "copy" if name in ("copy", "deepcopy") else "pickle"
-            if isinstance(p, Exception):
-                V(tag, f"{name} of {t!r} raised {type(p).__name__}", i)
-            elif not _same(p, t):
-                V(tag, f"{name} of {t!r} gives {p!r}", i)
-        for name, writer, reader in picklers:
-            if isinstance(reader, Exception):
-                V("nodepickler", f"NodePickler ({name}) could not be restored: {type(reader).__name__}", i)
-                continue
-            # bytes written by the pickler as it was, read by the (restored) pickler; and the restored one on its own
-            for how, f in (("written before", lambda: reader.loads(writer.dumps(t))), ("own", lambda: reader.loads(reader.dumps(t)))):
+    for i, t0 in live:
+        # the term itself and, for the four base classes, a twin in a user-defined subclass
+        for t in [t0] + _twins(t0):
+            if t is not t0:
+                stats["subclass_twins"] = stats.get("subclass_twins", 0) + 1
+            for name, f in (("pickle2", lambda: pickle.loads(pickle.dumps(t, 2))),
+                            ("pickle", lambda: pickle.loads(pickle.dumps(t, pickle.HIGHEST_PROTOCOL))),
+                            ("copy", lambda: copy.copy(t)), ("deepcopy", lambda: copy.deepcopy(t))):
                 p = _try(f)
+                tag = "copy" if name in ("copy", "deepcopy") else "pickle"
                 if isinstance(p, Exception):
-                    V("nodepickler", f"NodePickler ({name}, {how}) round trip of {t!r} raised {type(p).__name__}: {str(p)[:60]}", i)
+                    V(tag, f"{name} of {t!r} raised {type(p).__name__}", i)
                 elif not _same(p, t):
-                    V("nodepickler", f"NodePickler ({name}, {how}) round trip of {t!r} gives {p!r}", i)
-            stats["nodepickler_roundtrips"] = stats.get("nodepickler_roundtrips", 0) + 2
+                    V(tag, f"{name} of {t!r} gives {p!r} (class {type(p).__name__})", i)
+            for name, writer, reader in picklers:
+                if isinstance(reader, Exception):
+                    V("nodepickler", f"NodePickler ({name}) could not be made / restored: {type(reader).__name__}", i)
+                    continue
+                # bytes written by the pickler as it was, read by the (restored) pickler; and the restored one on its own
+                for how, f in (("written before", lambda: reader.loads(writer.dumps(t))), ("own", lambda: reader.loads(reader.dumps(t)))):
+                    p = _try(f)
+                    if isinstance(p, Exception):
+                        V("nodepickler", f"NodePickler ({name}, {how}) round trip of {t!r} raised {type(p).__name__}: {str(p)[:60]}", i)
+                    elif not _same(p, t):
+                        V("nodepickler", f"NodePickler ({name}, {how}) round trip of {t!r} gives {p!r} (class {type(p).__name__})", i)
+                stats["nodepickler_roundtrips"] = stats.get("nodepickler_roundtrips", 0) + 2
+        t = t0
         text = _try(lambda: t.n3())
         k = kinds[i]
         s = str(t)
